@@ -321,6 +321,69 @@ def scan_effects(body, names, texts, helper_classes, seen, depth=0, types={}):
     return eff
 
 
+def split_args(argtext):
+    out, d, cur = [], 0, ""
+    for c in argtext:
+        if c in "(<[" and not (c == "<" and d == 0 and False):
+            d += c != "<"
+        elif c in ")]":
+            d -= 1
+        if c == "," and d == 0:
+            out.append(cur.strip())
+            cur = ""
+        else:
+            cur += c
+    out.append(cur.strip())
+    return out
+
+
+SEL_RE = re.compile(r"(!?\s*\w+)\s*\?\s*fCachedSchemaInfoList\s*:\s*fSchemaInfoList")
+
+
+def scan_cache_lists(texts):
+    """how the two SchemaInfo tables (fSchemaInfoList: cleared by every scanReset; fCachedSchemaInfoList: cleared by
+    resetCachedGrammar only) are selected in the schema-loading functions of IG and SG:
+       lookup  the table TraverseSchema consults for already-traversed schemas (5th constructor argument)
+       store   the table new SchemaInfo objects go into (6th constructor argument; the resetRoot enumerator)
+       seen-cached / seen-transient   the guarded `->get(sysId, uriId)` tests "this exact schema has already been seen" """
+    rows = []
+    for sc in ("IGXMLScanner", "SGXMLScanner"):
+        for fn in ("resolveSchemaGrammar", "loadXMLSchemaGrammar"):
+            body = find_function(texts, sc, fn)
+            if body is None:
+                raise ScanError("%s::%s not found" % (sc, fn))
+            for m in re.finditer(r"TraverseSchema\s+\w+\s*\(", body):
+                e = match_brace(body, m.end() - 1, "(", ")")
+                args = split_args(body[m.end():e - 1])
+                if len(args) < 6:
+                    raise ScanError("%s::%s: TraverseSchema call shape changed" % (sc, fn))
+                for idx, slot in ((4, "lookup"), (5, "store")):
+                    a = " ".join(args[idx].split())
+                    mm = SEL_RE.fullmatch(a)
+                    if mm:
+                        rows.append((sc, fn, slot, mm.group(1).replace(" ", "")))
+                    elif a == "fCachedSchemaInfoList":
+                        rows.append((sc, fn, slot, "always"))
+                    elif a == "fSchemaInfoList":
+                        rows.append((sc, fn, slot, "never"))
+                    else:
+                        rows.append((sc, fn, slot, "?" + a[:40]))
+            for m in re.finditer(r"RefHash2KeysTableOfEnumerator\s*<\s*SchemaInfo\s*>\s*\w+\s*\(", body):
+                e = match_brace(body, m.end() - 1, "(", ")")
+                a = " ".join(body[m.end():e - 1].split())
+                mm = SEL_RE.fullmatch(a)
+                rows.append((sc, fn, "store", mm.group(1).replace(" ", "") if mm else ("always" if a == "fCachedSchemaInfoList" else
+                                                                                       "never" if a == "fSchemaInfoList" else "?" + a[:40])))
+            for m in re.finditer(r"if\s*\(([^;{}]*?)\)\s*\w+\s*=\s*(fCachedSchemaInfoList|fSchemaInfoList)\s*->\s*get\s*\(", body):
+                cond = "".join(m.group(1).split())
+                rows.append((sc, fn, "seen-cached" if m.group(2) == "fCachedSchemaInfoList" else "seen-transient", cond))
+            for m in re.finditer(r"(?<![?:\w])\s*(\w+)\s*=\s*(fCachedSchemaInfoList|fSchemaInfoList)\s*->\s*get\s*\(", body):
+                pre = body[max(0, m.start() - 60):m.start()]
+                if not re.search(r"if\s*\([^;{}]*\)\s*$", pre):
+                    rows.append((sc, fn, "seen-cached" if m.group(2) == "fCachedSchemaInfoList" else "seen-transient", "always"))
+    return rows
+
+
 def load_sources(repo):
     d = os.path.join(repo, INTERNAL)
     texts = {}
@@ -435,6 +498,15 @@ def generate(repo=None):
         out.append("Definition inv_%s : inventory := [\n%s\n]%%list.\n\n" % (cls, ";\n".join(rows)))
     out.append("Definition all_inventories : list (string * inventory) := [\n%s\n]%%list.\n" % ";\n".join(
         '  ("%s", inv_%s)' % (c, c) for c, _, e, _ in CLASSES if e is not None))
+    texts = list(load_sources(repo or V.REPO).values())
+    cl = scan_cache_lists(texts)
+    slotname = {"lookup": "LLookup", "store": "LStore", "seen-cached": "LSeenCached", "seen-transient": "LSeenTransient"}
+    out.append("\n(* which flag selects the persistent SchemaInfo table (fCachedSchemaInfoList) rather than the per-parse one\n"
+               "   (fSchemaInfoList) at each use in the schema-loading functions *)\n"
+               "Inductive lslot : Type := LLookup | LStore | LSeenCached | LSeenTransient.\n"
+               "Definition cache_list_uses : list (string * string * lslot * string) := [\n%s\n]%%list.\n" % ";\n".join(
+                   '  ("%s", "%s", %s, "%s")' % (a, b, slotname[c], d.replace('"', "'")) for a, b, c, d in cl))
+    side["cache_list_uses"] = [{"scanner": a, "function": b, "slot": c, "flag": d} for a, b, c, d in cl]
     changed = V.write_if_changed(os.path.join(V.COQ, "theories", "Gen", "GenScannerFields.v"), "".join(out))
     os.makedirs(os.path.join(V.VERIF, "gen"), exist_ok=True)
     V.write_if_changed(os.path.join(V.VERIF, "gen", "C15_scanner_fields.json"), json.dumps(side, indent=1))
@@ -443,6 +515,8 @@ def generate(repo=None):
 
 if __name__ == "__main__":
     s, ch = generate()
+    for r in s.pop("cache_list_uses"):
+        print("cache-list", r)
     for c, rows in s.items():
         print("== %s: %d members, %d reset" % (c, len(rows), sum(1 for r in rows if r["reset"] != "no")))
         for r in rows:
